@@ -218,6 +218,15 @@ func judge(class string, key []byte, o *fw.Obs) {
 // (one word list; the property does not cover concurrent SetWordList); results must equal the model's.
 func judgeConcurrent(l string, seed uint64, o *fw.Obs) {
 	o.Nontrivial()
+	// select the list anew, so that the goroutines below are the first users of a fresh list instance
+	var serr error
+	if !o.Try("SetWordList", func() { serr = bip39.SetWordList(l) }) {
+		return
+	}
+	if serr != nil {
+		o.Fail("setwordlist", "SetWordList(%q) failed: %v", l, serr)
+		return
+	}
 	r := fw.SubRng(int64(seed), "c03-concurrent")
 	list := bip39m.Lang(l)
 	type item struct {
